@@ -84,8 +84,23 @@ def zoo():
     return Z
 
 
+def extras():
+    """models reachable by name only (not part of the list the first-order checks iterate over)"""
+    X = []
+    # unit root with drift next to two stationary components with non-zero means; a measurement shock
+    X.append(ZModel(
+        "ur_mix", ("l", "g", "x"), ("el", "eg", "ex"),
+        ("l = l[-1] + g + el",
+         "g = 0.5*g[-1] + 0.1 + eg",
+         "x = 0.7*x[-1] + 0.6 + ex"),
+        dict(), mvars=("ol", "ox"), mshocks=("wl",), meqs=("ol = l + x + wl", "ox = x + 0.5*g"),
+        tags=("unit_root", "measurement", "backward", "constant"), forward=0, unit_roots=1,
+        steady_change={"l": F(1, 5), "g": F(0), "x": F(0)}))
+    return X
+
+
 def by_name(name):
-    for z in zoo():
+    for z in zoo() + extras():
         if z.name == name:
             return z
     raise KeyError(name)
